@@ -306,8 +306,10 @@ def _enumerate_transitions(desc, topology, td, particles, room):  # noqa: C901, 
     (init_id,) = topology.incoming_edge_ids
     ranges = {e: _projections(particles[e]) for e in topology.edges}
     ranges[init_id] = _subset(ranges[init_id], desc.get("hel_init", 0))
+    ident = list(desc.get("ident", []))
     for i in sorted(topology.outgoing_edge_ids):
-        ranges[i] = _subset(ranges[i], desc.get("hel_final", [0] * desc["n"])[i])
+        src = min(ident) if i in ident else i  # identical particles: same helicity subset
+        ranges[i] = _subset(ranges[i], desc.get("hel_final", [0] * desc["n"])[src])
     pc = {node: bool(td["pc"][pos]) for pos, node in enumerate(nodes)}
 
     def node_options(node, hel):
